@@ -1,6 +1,7 @@
 package verifsim
 
 import (
+	"sync"
 	"context"
 	"encoding/binary"
 	"fmt"
@@ -86,6 +87,7 @@ type CallSpec struct {
 	Conn    int                 `json:"conn,omitempty"`
 	ReqMD   map[string][]string `json:"reqmd,omitempty"`
 	Timeout time.Duration       `json:"timeout,omitempty"`
+	PreDone int                 `json:"predone,omitempty"` // the caller's context is already finished when the call starts: 1 cancelled, 2 deadline passed
 	Req     []byte              `json:"-"`
 	Resp    []byte              `json:"-"`
 	ReqLen  int                 `json:"reqlen"`
@@ -124,6 +126,10 @@ type CallRec struct {
 	CHeaderSet  bool
 	CTrailer    metadata.MD
 	CTrailerSet bool
+	burst     chan struct{} // closed when the handler has sent its burst (op 'n') or returned
+	burstOnce sync.Once
+	CTrailerAgain []metadata.MD // further Trailer() reads (same stream, later)
+	CHeaderAgain  []metadata.MD
 	CloseErr    error
 	CancelEv    int
 	Cancel      context.CancelFunc
@@ -200,7 +206,7 @@ func (s *Sim) Add(spec *CallSpec) *CallRec {
 		spec.Req = MakePayload(spec.ID, 'q', 0, spec.ReqLen)
 		spec.Resp = MakePayload(spec.ID, 'p', 0, spec.RespLen)
 	}
-	r := &CallRec{Spec: spec}
+	r := &CallRec{Spec: spec, burst: make(chan struct{})}
 	histMu.Lock()
 	s.Calls[spec.ID] = r
 	s.Order = append(s.Order, spec.ID)
@@ -446,6 +452,8 @@ func (s *Sim) hop(r *CallRec, ctx context.Context, ss grpc.ServerStream, op Op) 
 		time.Sleep(op.D)
 	case 'y':
 		e.Pt("h.yield")
+	case 'n':
+		r.burstOnce.Do(func() { close(r.burst) })
 	}
 	return false
 }
@@ -493,6 +501,7 @@ func (s *Sim) streamHandler(kind int, ss grpc.ServerStream) error {
 		}
 	}
 	e.Pt("h.return")
+	r.burstOnce.Do(func() { close(r.burst) })
 	err := r.Spec.HStatus.Err()
 	histMu.Lock()
 	r.HReturned = true
@@ -546,6 +555,13 @@ func (s *Sim) RunCallCtx(cc grpc.ClientConnInterface, r *CallRec, base context.C
 		ctx, cancel = e.WithTimeout(ctx, spec.Timeout)
 	} else {
 		ctx, cancel = context.WithCancel(ctx)
+	}
+	switch spec.PreDone {
+	case 1:
+		cancel()
+	case 2:
+		cancel()
+		ctx, cancel = context.WithDeadline(ctx, time.Now().Add(-time.Second))
 	}
 	histMu.Lock()
 	r.Ctx, r.Cancel = ctx, cancel
@@ -652,12 +668,27 @@ func (s *Sim) cprog(r *CallRec, st grpc.ClientStream, prog []Op, suffix string) 
 			r.CHeader, r.CHeaderErr, r.CHeaderSet = md, err, true
 			histMu.Unlock()
 			e.Log("c.header", "", id, errStr(err))
+			for k := 1; k < op.N && err == nil; k++ {
+				e.Pt("c.header")
+				again, _ := st.Header()
+				histMu.Lock()
+				r.CHeaderAgain = append(r.CHeaderAgain, again)
+				histMu.Unlock()
+			}
 		case 't':
 			e.Pt("c.trailer")
 			md := st.Trailer()
 			histMu.Lock()
 			r.CTrailer, r.CTrailerSet = md, true
 			histMu.Unlock()
+			// asking again is allowed and must give the same answer
+			for k := 1; k < op.N; k++ {
+				e.Pt("c.trailer")
+				again := st.Trailer()
+				histMu.Lock()
+				r.CTrailerAgain = append(r.CTrailerAgain, again)
+				histMu.Unlock()
+			}
 		case 'x':
 			e.Pt("c.cancel")
 			r.Cancel()
@@ -667,6 +698,18 @@ func (s *Sim) cprog(r *CallRec, st grpc.ClientStream, prog []Op, suffix string) 
 			time.Sleep(op.D)
 		case 'y':
 			e.Pt("c.yield")
+		case 'b':
+			// a caller slow to start receiving: wait until the handler has sent its burst
+			e.Pt("c.burstwait")
+			select {
+			case <-r.burst:
+			case <-r.Ctx.Done():
+			}
+			if r.Spec.HSendN >= 17 {
+				e.Note("burst.late>=17")
+			} else {
+				e.Note("burst.late<17")
+			}
 		case 'w':
 			e.Pt("c.wait")
 			<-r.Ctx.Done()
